@@ -195,6 +195,20 @@ def order_spec(bt):
                  z3.If(z3.And(bt >= 0, bt <= 6), z3.ToReal(bt), z3.RealVal(1)))))
 
 
+@P.unit("molli.chem.bond:Bond.order", name="Bond.order: the order of every bond type (ligand / dummy / not-connected / H-acceptor bonds use up no valence)")
+def _bond_order(V):
+    I, st = V.I, V.st
+    m = M.mk_mol(V, "Molecule", 2, ((0, 1),), name="g", full=True)
+    b = m.fields["_bonds"].items[0]
+    bt = b.fields["btype"].z
+    V.witness(lambda ev: {"op": "bond-order", "btype": ev(bt), "signature": "bond-order"})
+    V.cover()
+    r = V.method(b, "order", []) if False else None
+    val = I.getattr_(b, "order")
+    fo = to_z3(b.fields["f_order"], "real")
+    V.ensure("order/table", to_z3(val, "real") == z3.If(bt == 99, fo, order_spec(bt)))
+
+
 @P.unit(f"{CON}.bonds_with_atom", name="adjacency queries agree with the bond list",
         functions=[f"{CON}.bonds_with_atom", f"{CON}.connected_atoms", f"{CON}.bonded_valence", f"{CON}.n_bonds_with_atom", f"{CON}.lookup_bond",
                    "molli.chem.bond:Bond.order", "molli.chem.bond:Bond.__contains__", "molli.chem.bond:Bond.__mod__"])
@@ -276,6 +290,13 @@ def _matching(V):
                         and {id(k_): v_ for k_, v_ in zip(got[1].keys, got[1].vals)} == {id(pa[0]): ma[2], id(pa[1]): ma[1]}))
     idx = [x.items if isinstance(x, ListV) else x for x in I.iterate(I.call(I.getattr_(mol, "get_substr_indices"), [pat], {}))]
     V.ensure("match/get_substr_indices-lists-images-in-pattern-atom-order", z3.BoolVal(idx == [[1, 2], [2, 1]]))
+    # the ensemble class has its own get_substr_indices: same contract
+    ens = M.mk_ens(V, 2, 3, bonds=((0, 1), (1, 2)), name="en")
+    ea = ens.fields["_atoms"].items
+    del isos[:]
+    isos.extend([DictV([(ea[1], pa[0]), (ea[2], pa[1])]), DictV([(ea[1], pa[1]), (ea[2], pa[0])])])
+    idx2 = [x.items if isinstance(x, ListV) else x for x in I.iterate(I.call(I.getattr_(ens, "get_substr_indices"), [pat], {}))]
+    V.ensure("match/ensemble.get_substr_indices-lists-images-in-pattern-atom-order", z3.BoolVal(idx2 == [[1, 2], [2, 1]]))
 
 
 @P.bounded_standin("all graphs on <= 5 atoms (real code under CPython): BFS, ring test, matching vs brute force", "n_atoms <= 5 (BFS/ring), pattern <= 3 atoms in molecules <= 4 atoms (matching)")
